@@ -119,7 +119,7 @@ func jqPath(top *decode.Value, path []int) (string, bool) {
 
 func TestCLI(t *testing.T) {
 	buckets := treegen.Buckets(corpusMaxBytes)
-	harness.Rapid(t, 320, 6000, func(rt *rapid.T, c *harness.Case) {
+	harness.Rapid(t, 280, 6000, func(rt *rapid.T, c *harness.Case) {
 		var data []byte
 		var top *decode.Value
 		format := "bytes"
